@@ -151,6 +151,19 @@ def fcn_cosine(bounds, gpu=False):
     return func
 
 
+def _signed(x):
+    """
+    Booleans cannot be negated nor differentiated and unsigned integers wrap around (0 - 1 = 255): returns the
+    same values in a signed type for those, the input itself otherwise
+    """
+    x = np.asarray(x)
+    if x.dtype.kind == "b":
+        return x.astype(np.int8)
+    if x.dtype.kind == "u":
+        return x.astype(np.int64 if x.dtype.itemsize < 8 else np.float64)
+    return x
+
+
 def fronts(x, axis=-1, step=1):
     """
     Detects Rising and Falling edges of a voltage signal, returns indices and
@@ -160,7 +173,7 @@ def fronts(x, axis=-1, step=1):
     :param step: (optional, 1) value of the step to detect
     :return: numpy array of indices, numpy array of rises (1) and falls (-1)
     """
-    d = np.diff(x, axis=axis)
+    d = np.diff(_signed(x), axis=axis)
     ind = np.array(np.where(np.abs(d) >= step))
     sign = d[tuple(ind)]
     ind[axis] += 1
@@ -181,7 +194,7 @@ def falls(x, axis=-1, step=-1, analog=False):
      detecting edges
     :return: numpy array
     """
-    return rises(-x, axis=axis, step=-step, analog=analog)
+    return rises(-_signed(x), axis=axis, step=-step, analog=analog)
 
 
 def rises(x, axis=-1, step=1, analog=False):
@@ -198,7 +211,7 @@ def rises(x, axis=-1, step=1, analog=False):
     if analog:
         x = (x > step).astype(np.float64)
         step = 1
-    ind = np.array(np.where(np.diff(x, axis=axis) >= step))
+    ind = np.array(np.where(np.diff(_signed(x), axis=axis) >= step))
     ind[axis] += 1
     if len(ind) == 1:
         return ind[0]
